@@ -45,6 +45,9 @@ def _sort_uniq(data):
             newcoeff = uniq_result[-1][1]+coeff
             if not newcoeff:
                 uniq_result.pop()
+                # the entry for this exponent is gone: a further term with the
+                # same exponent must start a new entry, not update the previous one
+                last_exp = None
             else:
                 uniq_result[-1] = last_exp, newcoeff
 
